@@ -36,6 +36,22 @@ def dtype_ok(kind, orig, got):
     return False
 
 
+def loose_cells(series):
+    """cells for comparing two reads of the same file under different array types: missing -> None, numbers as float"""
+    from .gen_tables import canon_cell, cat_values
+    vals = cat_values(series) if isinstance(series.dtype, pd.CategoricalDtype) else series.astype(object).tolist()
+    out = []
+    for v in vals:
+        c = canon_cell(v)
+        if c in (("null",), ("nan",)):
+            out.append(None)
+        elif c[0] in ("b", "i", "f"):
+            out.append(float(v))
+        else:
+            out.append(c)
+    return out
+
+
 def run(ctx, report):
     import fastparquet
     rng = ctx.rng
@@ -98,6 +114,22 @@ def run(ctx, report):
                             probs.append(f"category labels of {c} changed: {list(got[c].cat.categories)[:5]} vs {list(exp[c].cat.categories)[:5]}")
                         if bool(got[c].cat.ordered) != bool(exp[c].cat.ordered):
                             probs.append(f"order flag of categorical {c} changed")
+        if got is not None and not probs:
+            # the nullable-types option is a READ option: with pandas_nulls=False integers / booleans with missing values land in
+            # float / object arrays, but every cell must still hold the value written (or be missing where it was missing)
+            try:
+                got2 = fastparquet.ParquetFile(path, pandas_nulls=False).to_pandas()
+                for c in got.columns:
+                    if c not in got2.columns or len(got2[c]) != len(got[c]):
+                        probs.append(f"pandas_nulls=False: column {c} missing or of another length")
+                        break
+                    a, b = loose_cells(got[c]), loose_cells(got2[c])
+                    bad = [i for i, (x, y) in enumerate(zip(a, b)) if x != y]
+                    if bad:
+                        probs.append(f"pandas_nulls=False: column '{c}' row {bad[0]}: {b[bad[0]]!r} read, the default read gives {a[bad[0]]!r} ({len(bad)} rows differ)")
+                        break
+            except Exception as e:  # noqa
+                probs.append("read with pandas_nulls=False raised after a successful write: " + canon_err(e) + " " + str(e)[:100])
         if probs:
             is_i96 = lambda p: case["opts"].get("times") == "int96" and p.startswith("dtype of") and "datetime64" in p and p.endswith("datetime64[ns]")  # noqa: E731
             is_ec = lambda p: len(df) == 0 and p.startswith("category labels")  # noqa: E731
